@@ -54,10 +54,14 @@ SHAPES_MORE = [
 
 def run(ctx):
     quick = ctx.quick()
+    fast = bool(os.environ.get("VERIF_C15_FAST"))      # development aid (binding only): no model checking, fewer schedules
     # ---- 1. exhaustive model checking (named deviations accepted: see ConfigRegistry.tla, NOTES.md)
-    model_check(ctx, SPEC, "MC_ConfigRegistry", "MC_ConfigRegistry.cfg" if quick else "MC_ConfigRegistry_thorough.cfg", timeout=3000)
-    model_check(ctx, SPEC, "MC_ConfigRegistry", "MC_ConfigRegistry_race.cfg" if quick else "MC_ConfigRegistry_race_thorough.cfg", timeout=3000)
-    ctx.cov["exhaustive"] = True
+    if fast:
+        ctx.notes.append("VERIF_C15_FAST: model checking skipped")
+    else:
+        model_check(ctx, SPEC, "MC_ConfigRegistry", "MC_ConfigRegistry.cfg" if quick else "MC_ConfigRegistry_thorough.cfg", timeout=3000)
+        model_check(ctx, SPEC, "MC_ConfigRegistry", "MC_ConfigRegistry_race.cfg" if quick else "MC_ConfigRegistry_race_thorough.cfg", timeout=3000)
+        ctx.cov["exhaustive"] = True
 
     # ---- 2. behaviours for the race replay: every interleaving of a tiny two-node instance + seeded simulations
     races = race_behaviours(ctx)
@@ -65,7 +69,7 @@ def run(ctx):
     # ---- 3. crash-point enumeration + race replay on the real code
     shapes = SHAPES_QUICK if quick else SHAPES_QUICK + SHAPES_MORE
     plan = {"shapes": [{"name": n, "prep": p} for n, p in shapes], "ops": OPS, "followups": OPS,
-            "timeout_ms": 20, "bound_ms": 20000, "stride": 4 if quick else 1, "races": races}
+            "timeout_ms": 20, "bound_ms": 20000, "stride": 6 if quick else 1, "races": races}
     bf = os.path.join(ctx.scratch, "c15-plan.json")
     tr = os.path.join(ctx.scratch, "c15.ndjson")
     ix = os.path.join(ctx.scratch, "c15-index.json")
@@ -82,25 +86,43 @@ def run(ctx):
     for s in pick_samples(rows, scen):
         ctx.sample(s)
 
-    # ---- 4. pass P: the property on the recorded real state
+    # ---- 4. pass P: the property on the recorded real state (no deviation accepted)
     vp = validate_scenarios(ctx, "Trace_ConfigRegistry_P.cfg", tr, rows, scen)
-    for sc, (inv, line) in sorted(vp["violations"].items()):
-        s = scen[sc]
-        key = "%s:%s" % (inv, signature(rows, s, line))
-        what = "real bootstrapContext breaks %s in scenario %s at trace line %d (%s)" % (inv, s["id"], line, brief(rows[line - 1]))
-        report_violation(ctx, key, what, {"scenario": s["id"], "invariant": inv, "lines": rows[s["start"] - 1:line]})
     if vp["stuck"]:
         sc = sorted(vp["stuck"])[0]
         raise Inconclusive("pass P did not accept the shape of scenario %s (stopped at line %d: %s)" % (
             scen[sc]["id"], vp["stuck"][sc], brief(rows[vp["stuck"][sc] - 1])))
-    hangs = [r for r in rows if r["a"] == "Hang"]
-    if any(s.get("hung_once") for s in scen.values()):
-        ctx.notes.append("a follow-up exceeded the liveness bound once and did not reproduce (not counted)")
+    unexplained = set()
+    if vp["violations"]:
+        # attribution: the same scenarios once more with the named deviations accepted.  Still violating -> reported with
+        # the specific history as key; accepted -> reported once per deviation the specification says was needed.
+        sub, back = subset(ctx, rows, scen, sorted(vp["violations"]), "c15-violating.ndjson")
+        srows = read_ndjson(sub)
+        vd = validate_scenarios(ctx, "Trace_ConfigRegistry_PD.cfg", sub, srows, scenarios_of(srows))
+        for ssc, osc in sorted(back.items()):
+            s = scen[osc]
+            inv, line = vp["violations"][osc]
+            replay = {"scenario": s["id"], "invariant": inv, "lines": rows[s["start"] - 1:line]}
+            if ssc in vd["violations"] or not vd["devs"].get(ssc):
+                inv2, sline = vd["violations"].get(ssc, (inv, None))
+                key = "%s:%s" % (inv, signature(rows, s, line))
+                unexplained.add(osc)
+                report_violation(ctx, key, "real bootstrapContext breaks %s in scenario %s at trace line %d (%s)" % (
+                    inv, s["id"], line, brief(rows[line - 1])), replay)
+            else:
+                for dv in sorted(vd["devs"][ssc]):
+                    ctx.cov["c15"].setdefault("deviation_scenarios", {}).setdefault(dv, 0)
+                    ctx.cov["c15"]["deviation_scenarios"][dv] += 1
+                    report_violation(ctx, "deviation:" + dv, "real bootstrapContext breaks %s (%s) in scenario %s at trace line %d (%s)" % (
+                        inv, dv, s["id"], line, brief(rows[line - 1])), replay)
+    if any(r["a"] == "Hang" for r in rows):
+        ctx.notes.append("a call exceeded the liveness bound twice in a row (reported through Recoverable)")
 
-    # ---- 5. pass C: every storage step is the step the specification's program takes
+    # ---- 5. pass C: every storage step is the step the specification's program takes (deviations accepted)
     vc = validate_scenarios(ctx, "Trace_ConfigRegistry_C.cfg", tr, rows, scen)
-    bad = {sc: l for sc, l in vc["stuck"].items() if sc not in vp["violations"]}
-    bad.update({sc: il[1] for sc, il in vc["violations"].items() if sc not in vp["violations"]})
+    bad = dict(vc["stuck"])
+    bad.update({sc: il[1] for sc, il in vc["violations"].items()})
+    bad = {sc: l for sc, l in bad.items() if sc not in unexplained}     # (a scenario pass P rejected outright is cut there)
     if bad:
         ctx.cov["nonconformance"] += len(bad)
         for sc in sorted(bad)[:5]:
@@ -122,8 +144,127 @@ def run(ctx):
 
 
 # --------------------------------------------------------------------------------------------
+def S(n, t=None, db=None, colls=None):
+    return {"a": "Start", "n": n, "t": t, "db": db or "-", "colls": colls or []}
+
+
+def steps(n, k):
+    return [{"a": "Step", "n": n}] * k
+
+
+# directed schedules = the shortest TLC counterexamples of the race model with one named deviation switched off
+# (re-derived from the model in the thorough tier, see derive_counterexamples)
+DIRECTED = [
+    ("OrphanDeleteDestroysLive/concurrent-insert",
+     [S(1, "I", "A", A1)] + steps(1, 1) + [S(2, "I", "A", A1)] + steps(2, 1) + steps(1, 3) + steps(2, 3)),
+    ("OrphanDeleteDestroysLive/update-vs-insert",
+     [S(1, "I", "A", A1)] + steps(1, 1) + [S(2, "U", "A", A1)] + steps(2, 1) + steps(1, 3) + steps(2, 3)),
+    ("DeleteFinalizeRemovesRecreated/insert-during-delete",
+     [S(1, "I", "A", A1)] + steps(1, 4) + [S(1, "D", "A")] + steps(1, 4) + [S(2, "I", "A", A1)] + steps(2, 3) + steps(1, 2) + steps(2, 1)),
+    ("cas-race/two-updates", [S(1, "I", "A", A12)] + steps(1, 4) + [S(1, "U", "A", A1), S(2, "U", "A", A12)] + steps(1, 2) + steps(2, 2) + steps(1, 1) + steps(2, 1)),
+    ("cas-race/insert-B-vs-grow-A", [S(1, "I", "A", A1)] + steps(1, 4) + [S(1, "U", "A", A12), S(2, "I", "B", B2)] + steps(1, 2) + steps(2, 2) + steps(2, 2) + steps(1, 2)),
+    ("slow-writer/update-waited-for", [S(1, "I", "A", A1)] + steps(1, 4) + [S(1, "U", "A", A12)] + steps(1, 3) + [S(2, "L")] + steps(2, 2) + steps(1, 1) + steps(2, 3) + steps(1, 2)),
+]
+
+
+def to_schedule(beh):
+    """TLC hist -> harness schedule (node names in order of appearance -> 1, 2)"""
+    names, res = {}, []
+    for h in beh["steps"]:
+        n = names.setdefault(str(h["n"]), len(names) + 1)
+        if h["a"] == "Start":
+            o = h["o"]
+            res.append(S(n, o["t"], o["db"], sorted(o["colls"])))
+        elif h["a"] == "Crash":
+            res.append({"a": "Crash", "n": n})
+        else:
+            res.append({"a": "Step", "n": n})
+    return res
+
+
+def interesting(sched):
+    """two calls in flight at once somewhere"""
+    running, seen = set(), False
+    for st in sched:
+        if st["a"] == "Start":
+            running.add(st["n"])
+            seen = seen or len(running) > 1
+    return seen
+
+
 def race_behaviours(ctx):
-    return []
+    import hashlib
+    import random
+    quick = ctx.quick()
+    rnd = random.Random(ctx.seed)
+    res, seen = [], set()
+
+    def add(prefix, sched):
+        k = json.dumps(sched, sort_keys=True)
+        if k in seen:
+            return
+        seen.add(k)
+        res.append({"id": "%s-%s" % (prefix, hashlib.sha1(k.encode()).hexdigest()[:8]), "steps": sched})
+    for name, sched in DIRECTED:
+        seen.add(json.dumps(sched, sort_keys=True))
+        res.append({"id": name, "steps": sched})
+    if not quick:
+        for name, sched in derive_counterexamples(ctx):
+            add("cex/" + name, sched)
+    # every interleaving of two nodes racing two changes of one database
+    allb = [to_schedule(b) for b in behaviours(ctx, SPEC, "MC_ConfigRegistry", "Beh_ConfigRegistry.cfg", timeout=1200)]
+    allb = [b for b in allb if interesting(b)]
+    uniq = {json.dumps(b, sort_keys=True): b for b in allb}
+    allb = [uniq[k] for k in sorted(uniq)]
+    ctx.cov["race_behaviours_exhaustive"] = len(allb)
+    if quick:
+        allb = rnd.sample(allb, min(len(allb), 100))
+    for b in allb:
+        add("beh", b)
+    # seeded simulations of the larger instance (two databases, loads, one crash)
+    if os.environ.get("VERIF_C15_FAST"):
+        return res
+    # seeded simulations of the larger instance (two databases, loads, one crash): TLC -simulate is slow on this model
+    # (it builds every successor to pick one), so the quick tier only takes a few
+    sims = behaviours(ctx, SPEC, "MC_ConfigRegistry", "Sim_ConfigRegistry.cfg", num=30 if quick else 1500, depth=70, timeout=2400)
+    for b in sims:
+        sc = to_schedule(b)
+        if interesting(sc):
+            add("sim", sc)
+    return res
+
+
+def derive_counterexamples(ctx):
+    """thorough: with one deviation switched off the race model must produce a counterexample (the deviation is real in
+    the model); its behaviour is replayed on the real code like any other schedule."""
+    res = []
+    for flag in ("AllowOrphanDeleteLive", "AllowDeleteFinalizeLive"):
+        cfg_src = open(os.path.join(SPEC, "MC_ConfigRegistry_race_thorough.cfg")).read()
+        cfg_src = cfg_src.replace("CONSTANT %s = TRUE" % flag, "CONSTANT %s = FALSE" % flag)
+        cfg_src = cfg_src.replace("CONSTANT MaxLoads = 1", "CONSTANT MaxLoads = 0").replace("CONSTANT MaxCrashes = 1", "CONSTANT MaxCrashes = 0")
+        for inv in PROPERTY_INVS:
+            cfg_src = cfg_src.replace("INVARIANT %s\n" % inv, "INVARIANT Cex%s\n" % inv)
+        name = "Cex_%s.cfg" % flag
+        # staged next to the module by tlc(): write into the spec dir is not allowed, so stage by hand
+        r = tlc_with_cfg(ctx, name, cfg_src)
+        cex = [json.loads(json.loads(txt)) for t, txt in r.printed if t == "CEX"]
+        if not cex:
+            ctx.notes.append("no model counterexample with %s = FALSE (deviation no longer in the model?)" % flag)
+            continue
+        best = min(cex, key=lambda c: len(c["steps"]))
+        res.append(("%s/%s" % (flag[5:], best["inv"]), to_schedule(best)))
+    return res
+
+
+def tlc_with_cfg(ctx, name, cfg_src):
+    import shutil
+    import tempfile
+    d = tempfile.mkdtemp(prefix="c15-cex-", dir=ctx.scratch)
+    sd = os.path.join(d, "ConfigRegistry")
+    shutil.copytree(SPEC, sd)
+    with open(os.path.join(sd, name), "w") as f:
+        f.write(cfg_src)
+    return tlc(ctx, sd, "MC_ConfigRegistry", name, timeout=3000, allow_violation=True, tag="cex")
 
 
 def scenarios_of(rows):
@@ -220,7 +361,7 @@ def signature(rows, s, line):
     extra = ""
     if r["a"] == "Ret" and call and call["t"] == "L":
         extra = "loaded[A=%s B=%s]" % (e2(r["out"]["cfgs"]["A"]), e2(r["out"]["cfgs"]["B"]))
-    return "%s@%s->%s%s%s" % (s["kind"], c, ev, extra, st)
+    return "%s->%s%s%s" % (c, ev, extra, st)
 
 
 def pick_samples(rows, scen):
@@ -234,22 +375,47 @@ def pick_samples(rows, scen):
 
 
 _AT = re.compile(r'^<<"AT", (\d+), (\d+)>>$', re.M)
-_END = re.compile(r'^<<"END", (\d+)>>$', re.M)
+_END = re.compile(r'^<<"END", (\d+), \{(.*)\}>>$', re.M)
+
+
+def subset(ctx, rows, scen, scs, name):
+    """write the given scenarios to a new trace file -> (path, {new sc: old sc})"""
+    path = os.path.join(ctx.scratch, name)
+    out, back = [], {}
+    for sc in scs:
+        back[len(out) + 1] = sc
+        out += rows[scen[sc]["start"] - 1:scen[sc]["end"]]
+    write_ndjson(path, out)
+    return path, back
+
+
+def run_trace_tlc(ctx, cfg, trace_path, verbose=False):
+    import shutil
+    import tempfile
+    spec = SPEC
+    if verbose:
+        d = tempfile.mkdtemp(prefix="c15-verbose-", dir=ctx.scratch)
+        spec = os.path.join(d, "ConfigRegistry")
+        shutil.copytree(SPEC, spec)
+        src = open(os.path.join(spec, cfg)).read().replace("CONSTANT Verbose = FALSE", "CONSTANT Verbose = TRUE")
+        open(os.path.join(spec, cfg), "w").write(src)
+    r = tlc(ctx, spec, "Trace_ConfigRegistry", cfg, env={"VERIF_TRACE": trace_path}, timeout=3000,
+            extra=["-continue"], tag="Trace-" + cfg.split("_")[-1].split(".")[0], allow_violation=True)
+    if r.error_text and "is violated" not in r.out:
+        raise Inconclusive("TLC error validating with %s: %s\n%s" % (cfg, r.error_text, r.out[-1500:]))
+    return r
 
 
 def validate_scenarios(ctx, cfg, trace_path, rows, scen):
-    """-> {ended: set(sc), violations: {sc: (inv, line)}, stuck: {sc: first unconsumed line}}; sc = line of the Reset"""
-    r = tlc(ctx, SPEC, "Trace_ConfigRegistry", cfg, env={"VERIF_TRACE": trace_path}, timeout=3000,
-            extra=["-continue"], tag="Trace-" + cfg.split("_")[-1].split(".")[0], allow_violation=True)
+    """-> {ended: set(sc), devs: {sc: set(names)}, violations: {sc: (inv, line)}, stuck: {sc: first unconsumed line}};
+    sc = line of the scenario's Reset"""
+    r = run_trace_tlc(ctx, cfg, trace_path)
     out = r.out
-    if r.error_text and "is violated" not in out:
-        raise Inconclusive("TLC error validating with %s: %s\n%s" % (cfg, r.error_text, out[-1500:]))
-    hw = {}
-    for m in _AT.finditer(out):
-        sc, l = int(m.group(1)), int(m.group(2))
-        if l > hw.get(sc, 0):
-            hw[sc] = l
-    ended = set(int(m.group(1)) for m in _END.finditer(out))
+    ended, devs = set(), {}
+    for m in _END.finditer(out):
+        sc = int(m.group(1))
+        ended.add(sc)
+        devs[sc] = set(re.findall(r'"(\w+)"', m.group(2)))
     viol = {}
     parts = re.split(r"Error: Invariant (\S+) is violated\.", out)
     for i in range(1, len(parts), 2):
@@ -262,10 +428,17 @@ def validate_scenarios(ctx, cfg, trace_path, rows, scen):
         if sc not in viol or line < viol[sc][1]:
             viol[sc] = (inv, line)
     stuck = {}
-    for sc in scen:
-        if sc in ended or sc in viol:
-            continue
-        stuck[sc] = hw.get(sc, sc + 1)
+    missing = [sc for sc in scen if sc not in ended and sc not in viol]
+    if missing:
+        # locate the first line that was not consumed: the few scenarios concerned once more, with line markers
+        sub, back = subset(ctx, rows, scen, sorted(missing), "c15-stuck.ndjson")
+        r2 = run_trace_tlc(ctx, cfg, sub, verbose=True)
+        hw = {}
+        for m in _AT.finditer(r2.out):
+            ssc, l = int(m.group(1)), int(m.group(2))
+            hw[ssc] = max(hw.get(ssc, 0), l)
+        for ssc, osc in back.items():
+            stuck[osc] = scen[osc]["start"] + (hw.get(ssc, ssc + 1) - ssc)
     log("  TLC %-28s %-22s %d scenarios: %d accepted, %d violating, %d not consumed  %.1fs" % (
         "Trace_ConfigRegistry", cfg, len(scen), len(ended - set(viol)), len(viol), len(stuck), r.wall))
-    return {"ended": ended, "violations": viol, "stuck": stuck}
+    return {"ended": ended, "devs": devs, "violations": viol, "stuck": stuck}
